@@ -10,6 +10,8 @@ Workload (generated, well-posed by construction; reference models in vlib/refs/c
                 residual scalings, far starts and warm starts (1e-9 from a minimiser); explicit-matrix probe
   wrap          L_BFGS_B / minimize / maximize / LS around scipy, every documented method, with a recording
                 pass-through on the scipy entry point the wrapper looks up at call time
+  cg_floor      CGLS / PCGLS with tol = 1e-14 / 1e-16 (below the attainable accuracy) started 1e-2 / 1e-6 from the solution:
+                a run that stops before maxit must still return the solution
   prox          the three shipped maps against a brute-force 1-D grid argmin and their variational inequality
 Monitors/oracles: residual of the optimality system recomputed independently at the returned point of
 converged runs (iteration count < maxit; otherwise the run is inconclusive), dense reference solutions,
@@ -39,7 +41,7 @@ REQUIRED_COUNTERS = {
               "fista_objective_probes": 13000, "fista_step_trace_checked": 9000, "lm_stationarity_checked": 18,
               "lm_stationarity_checked_dense": 8, "lm_stationarity_checked_sparse": 8, "wrapper_result_fields_checked": 450,
               "wrapper_forwarded_args_checked": 100, "wrapper_optimality_checked": 45, "prox_grid_checked": 1600,
-              "prox_vi_checked": 8000},
+              "prox_vi_checked": 8000, "cg_floor_stopped_runs_checked": 120, "wrapper_unreported_field_checked": 10},
     "thorough": {"normal_eq_checked": 900, "normal_eq_checked_CGLS": 450, "normal_eq_checked_PCGLS_explicit_sym": 110,
                  "normal_eq_checked_PCGLS_explicit_nonsym": 110, "normal_eq_checked_PCGLS_spsolve_sym": 110,
                  "normal_eq_checked_PCGLS_spsolve_nonsym": 110, "ne_reference_solution_checked": 700,
@@ -48,7 +50,7 @@ REQUIRED_COUNTERS = {
                  "fista_objective_probes": 40000, "fista_step_trace_checked": 30000, "lm_stationarity_checked": 60,
                  "lm_stationarity_checked_dense": 30, "lm_stationarity_checked_sparse": 30, "wrapper_result_fields_checked": 1300,
                  "wrapper_forwarded_args_checked": 280, "wrapper_optimality_checked": 140, "prox_grid_checked": 5000,
-                 "prox_vi_checked": 25000}}
+                 "prox_vi_checked": 25000, "cg_floor_stopped_runs_checked": 500, "wrapper_unreported_field_checked": 30}}
 BUDGET_S = {"quick": 600.0, "thorough": 2400.0}
 
 MIN_METHODS = [None, "BFGS", "CG", "L-BFGS-B", "TNC", "SLSQP", "Newton-CG", "trust-constr", "Nelder-Mead", "Powell", "COBYLA"]
@@ -83,6 +85,13 @@ def cases(tier, seed):
                                     "shiftval": rg.choice([0.01, 0.3, 5.0]), "scale": rg.choice([1e-3, 1.0, 1.0, 30.0]), "rep": rep})
     out.append({"kind": "cgls", "shape": "over", "shift": "zero", "mat": "dense", "x0": "solution", "m": 9, "n": 4,
                 "cond": 10, "tol": 1e-8, "shiftval": 0.3, "scale": 1.0, "rep": 0})
+    # ---- CGLS / PCGLS with a tolerance below the attainable accuracy, started near the solution
+    for rep in range(1 if quick else 4):
+        for solver in ("CGLS", "PCGLS"):
+            for tol in (1e-14, 1e-16):
+                for offset in (1e-2, 1e-6):
+                    for size in ("tiny", "small"):
+                        out.append({"kind": "cg_floor", "solver": solver, "tol": tol, "offset": offset, "size": size, "rep": rep})
     # ---- PCGLS
     for rep in range(2 if quick else 6):
         for shape in ("over", "under", "square"):
@@ -149,7 +158,7 @@ def cases(tier, seed):
     return out
 
 def crash_config(case):
-    return {k: case[k] for k in ("kind", "solver", "method", "shape", "shift", "mat", "pkind", "path", "prox", "adaptive",
+    return {k: case[k] for k in ("kind", "solver", "method", "shape", "shift", "mat", "pkind", "path", "prox", "adaptive", "size",
                                  "problem", "sparse", "op", "variant") if k in case}
 
 # --------------------------------------------------------------------------- helpers
@@ -304,6 +313,40 @@ def _run_ne(case, ctx):
     if okm and (case["x0"] != "solution"):
         ctx.nontrivial()
     ctx.note("k_matrix", km)
+
+def _run_cg_floor(case, ctx):
+    """tol below what floating point can deliver, start close to the solution: whenever the solver stops before maxit
+    (i.e. by one of its own rules) the returned point must still be the solution."""
+    from cuqi.solver._solver import CGLS, PCGLS
+    rs = core.np_rng(ctx.seed, PROPERTY, core.canon(case))
+    tol, maxit = float(case["tol"]), 300
+    nprob = 60
+    for _ in range(nprob):
+        n = int(rs.randint(2, 5)) if case["size"] == "tiny" else int(rs.randint(5, 25))
+        m = n + int(rs.randint(1, 10))
+        A = R.dense_matrix(rs, m, n, float(rs.choice([3.0, 30.0])))
+        b = rs.standard_normal(m)
+        xs = np.linalg.lstsq(A, b, rcond=None)[0]
+        x0 = xs + float(case["offset"]) * rs.standard_normal(n)
+        if case["solver"] == "CGLS":
+            x, k = CGLS(A, b.copy(), x0.copy(), maxit, tol).solve()
+        else:
+            x, k = PCGLS(A, b.copy(), x0.copy(), R.preconditioner(rs, n, "diag"), maxit, tol).solve()
+        x = np.asarray(x, dtype=float)
+        ctx.count("cg_floor_runs")
+        if int(k) >= maxit:
+            ctx.count("cg_floor_reached_maxit")         # not 'run to convergence': nothing to decide
+            continue
+        ctx.count("cg_floor_stopped_runs_checked")
+        err = _norm(x - xs) if x.shape == xs.shape else np.inf
+        if err <= 1e-6 * (1 + _norm(xs)):
+            _track(ctx, "max_cg_floor_err", err / (1 + _norm(xs)))
+        else:
+            rule = "xnorm" if (np.all(np.isfinite(x)) and _norm(x) * tol >= 1) else "other"
+            ctx.violation("garbage_after_convergence", {"solver": case["solver"], "tol": "below_floor", "stop_rule": rule},
+                          detail=f"{case['solver']} m={m} n={n} tol={tol} start {case['offset']:g} from the solution: stopped after k={k} < maxit={maxit} "
+                                 f"with ||x|| = {_norm(x):.3e}, ||x - x_ref|| = {err:.3e} (||x_ref|| = {_norm(xs):.3e})")
+    ctx.nontrivial()
 
 def _track(ctx, key, value):
     """keep the running maximum of a margin statistic in the notes (diagnostic only)"""
@@ -526,7 +569,23 @@ def _run_lm(case, ctx):
     ctx.count("lm_stationarity_checked_" + ("sparse" if case["sparse"] else "dense"))
     ctx.note("lm ||J^T r||/||J0^T r0||, gradtol, nfev", [g1 / g0, gradtol, nfev])
     if g1 > bound:
-        ctx.violation("not_stationary", cfg, detail=f"{pb.name}: ||J^T r|| / ||J0^T r0|| = {g1/g0:.3e} > gradtol = {gradtol} after {nfev} < maxit iterations")
+        # LM may stop before maxit without attaining the *relative* gradtol when no further decrease of the sum of squares is
+        # representable (its damping overflowed after every step had been rejected / had vanished).  That is observable in the
+        # trace: the last trial points coincide with the returned point.  Then stationarity is judged at floating-point level
+        # on the problem scale: ||J^T r|| <= 1e-5 ||J|| ||r|| + 1e-10 ||J|| ||r(far start)||  (sqrt(eps)-level: a decrease of
+        # ||g||^2 / (4||J||^2) below the rounding error of 1/2||r||^2 cannot be seen by any acceptance test).
+        stagnated = len(evals) >= 200 and all(np.array_equal(e, x) for e in evals[-20:])
+        nJ = float(np.linalg.norm(J1, 2))
+        fp_tol = 1e-5 * nJ * _norm(r1) + 1e-10 * nJ * _norm(pb.r(pb.x0))
+        if stagnated:
+            _track(ctx, "max_lm_fp_floor_ratio", g1 / fp_tol)
+        if stagnated and g1 <= fp_tol:
+            ctx.count("lm_stopped_at_fp_floor")
+            ctx.nontrivial("lm_fp_floor")
+            return
+        ctx.violation("not_stationary", dict(cfg, stagnated=bool(stagnated)),
+                      detail=f"{pb.name}: ||J^T r|| / ||J0^T r0|| = {g1/g0:.3e} > gradtol = {gradtol} after {nfev} < maxit iterations"
+                             f" (||J^T r|| = {g1:.3e}, floating-point floor allowance {fp_tol:.3e}, trace stagnated: {stagnated})")
         return
     # returned point must be one the residual was evaluated at, and the sum of squares did not increase
     ctx.count("lm_trace_checked")
@@ -719,8 +778,12 @@ def _run_wrap(case, ctx):
         if solver == "LS":
             pairs = [("success", res["success"]), ("message", res["message"]), ("func", res["fun"]), ("jac", res["jac"]), ("nfev", res["nfev"])]
         else:
-            pairs = [("success", res["success"]), ("message", res["message"]), ("func", res["fun"]), ("grad", res["jac"]),
-                     ("nit", res["nit"]), ("nfev", res["nfev"])]
+            # gradient-free methods report no 'jac' (COBYLA no 'nit' either): then the info field must be None
+            pairs = [("success", res["success"]), ("message", res["message"]), ("func", res["fun"]), ("grad", _get(res, "jac")),
+                     ("nit", _get(res, "nit")), ("nfev", res["nfev"])]
+            for k_ in ("jac", "nit"):
+                if _get(res, k_) is None:
+                    ctx.count("wrapper_unreported_field_checked")
         success = bool(res["success"])
     ctx.count("wrapper_result_fields_checked")
     if not _same(np.asarray(sol), np.asarray(rx)):
@@ -874,6 +937,8 @@ def run_case(case, ctx):
     k = case["kind"]
     if k in ("cgls", "pcgls"):
         _run_ne(case, ctx)
+    elif k == "cg_floor":
+        _run_cg_floor(case, ctx)
     elif k == "fista":
         _run_fista(case, ctx)
     elif k in ("lm", "lm_explicit"):
